@@ -336,8 +336,17 @@ class Interp:
                 path.append(("i", idx))
             elif e[0] == "c":
                 if e[2]:
-                    raise Unsupported("constant index from end")
-                path.append(("i", e[1]))
+                    # constant index counted from the end (slice patterns `[.., last]`)
+                    cur_ = self.read_path(frame, local, path)
+                    n_ = cur_.len if isinstance(cur_, Slice) else len(cur_) if isinstance(cur_, list) else None
+                    if n_ is None:
+                        raise Unsupported("constant index from end into %r" % (cur_,))
+                    path.append(("i", n_ - e[1]))
+                else:
+                    path.append(("i", e[1]))
+            elif e[0] == "s":
+                # subslice `[from .. to]` (to counted from the end when e[3]) of a slice pattern
+                path.append(("s", e[1], e[2], bool(e[3])))
             elif e[0] == "d":
                 path.append(("d", e[2]))
             else:
@@ -388,6 +397,16 @@ class Interp:
             elif k == "d":
                 if isinstance(v, Adt) and v.vi != p[1]:
                     raise Unsupported("downcast to variant %d of %r" % (p[1], v))
+            elif k == "s":
+                if isinstance(v, list):
+                    v = Slice(v, 0, len(v))
+                if not isinstance(v, Slice):
+                    raise Unsupported("subslice of %r" % (v,))
+                frm, to, from_end = p[1], p[2], p[3]
+                end_ = v.len - to if from_end else to
+                if not (0 <= frm <= end_ <= v.len):
+                    raise Panic("subslice pattern out of range")
+                v = Slice(v.heap, v.start + frm, end_ - frm, v.esz)
         return v
 
     def read(self, fr, pl):
@@ -492,6 +511,9 @@ class Interp:
             hf.id = -1
             hf.gen = {}
             return Ref(hf, 0, [])
+        if "list" in k:
+            # tuple / array constant, element-wise
+            return [self.const(dict(fk), fr) for fk in k["list"]]
         if "adt2" in k:
             a = k["adt2"]
             path = self.P.norm(a["path"], False)
@@ -543,7 +565,13 @@ class Interp:
             if ty.startswith("&"):
                 return Slice(vals, 0, len(vals))
             return vals
+        if "refarr" in k:
+            # reference to an array of references
+            items = [self.const(dict(x), fr) for x in k["refarr"]]
+            return Slice(items, 0, len(items), 8)
         if "ptr_bytes" in k:
+            if re.match(r"^&(?:'\w+ )?\[&", ty):
+                raise Unsupported("constant array of references without element values: %s" % ty)
             raw = list(bytes.fromhex(k["ptr_bytes"]))
             # reference to a constant allocation; interpret according to the pointee type
             mm = re.match(r"^&(?:'static )?\[(u8|i8|u16|i16|u32|i32|u64|i64); (\d+)\]", ty)
@@ -567,7 +595,11 @@ class Interp:
                     hf.locals = [Adt(self.P.norm(pt, False), vi, a["variants"][vi]["name"], [])]
                     hf.id = -1
                     return Ref(hf, 0, [])
-            return Slice(raw, 0, len(raw))
+            if re.match(r"^&(?:'\w+ )?\[.*; 0\]$", ty):
+                return Slice([], 0, 0)
+            # anything else (tuples, arrays of structs, pointers to pointers) would be raw bytes with the
+            # provenance stripped: never hand that to the program as a value
+            raise Unsupported("constant allocation of type %s is not decoded" % ty)
         if "static" in k:
             return self.static_ref(k["static"])
         if "item" in k and "pidx" not in k and ("indirect" in k or "slice" in k):
